@@ -18,6 +18,15 @@ class Session(object):
         self.groups = []     # pagination sessions etc.: dict(kind=..., idx=[...], ...)
 
     def do(self, op, args, **meta):
+        if getattr(self, "dead", False):
+            # an earlier request did not return: the index object is no longer usable, stop issuing requests
+            return I.Crash("skipped after a request that did not return")
+        a = self._do(op, args, **meta)
+        if isinstance(a, I.Crash) and str(a.detail).startswith("Timeout"):
+            self.dead = True
+        return a
+
+    def _do(self, op, args, **meta):
         if getattr(self, "ro_check", False) and op not in C.WRITE_OPS and op not in (43, 44, 45):
             before = (self.impl.file_bytes("t"), self.impl.file_bytes("l"), len(self.impl.trace))
             a = self.impl.exec(op, args)
